@@ -298,9 +298,19 @@ func c17Body(depth int) func(x *engine.X) {
 				as = append(as, act{"AsyncFlush", func() {
 					fc := &wsCall{kind: "AsyncFlush"}
 					e.flushes = append(e.flushes, fc)
+					earlier := append([]*wsCall{}, e.writes...) // application writes submitted before this flush
 					e.ws.AsyncFlush(func(err error) {
 						fc.calls++
 						fc.err = err
+						// a flush reports that what was queued before it has been written: it cannot complete (successfully)
+						// ahead of an application write that was submitted earlier
+						if err == nil {
+							for i, w := range earlier {
+								if w.calls == 0 {
+									x.Fail("ws/flush-completed-before-earlier-write", "AsyncFlush completed while %s#%d, submitted before it, has not completed yet", w.kind, i+1)
+								}
+							}
+						}
 						if fc.calls > 1 {
 							x.Fail("ws/flush-callback-twice", "AsyncFlush: callback ran %d times", fc.calls)
 						}
